@@ -179,7 +179,9 @@ def _run(env):
     for t in BOOL_TYPES:
         for v in (0, 1, 2, 128, 255): grid.append((t, bytes([v]), False))
     for t in range(0, 128, ctx.n(3, 1)):
-        if t in (2, 32, 12, 20, 29, 33, 35, 16, 3, 9, 5, 11, 21, 22, 34): continue
+        # types PGPy knows have type-specific body layouts (a wrong body length is not a well-formed subpacket): the grid is about
+        # UNKNOWN types and the critical bit; known types are covered with well-formed bodies by the generated areas above
+        if t in (2, 3, 4, 5, 6, 7, 9, 11, 12, 16, 20, 21, 22, 23, 24, 25, 26, 27, 28, 29, 30, 32, 33, 34, 35, 37): continue
         for crit in (False, True):
             grid.append((t, bytes([1, 2, 3])[:(t % 4)], crit))
     for t, bodyb, crit in grid:
